@@ -27,6 +27,9 @@ use std::time::{Duration, Instant};
 const CTR: &str = "c18_scrapes_observed_total";
 const CLEAN_DEADLINE: Duration = Duration::from_secs(12);
 const FAULTY_DEADLINE: Duration = Duration::from_secs(3);
+/// After this many runs in which the listener failed a healthy client (each is a rejected trace = a violation) the
+/// remaining programs are not executed: every further one would cost a full deadline against a dead listener.
+const MAX_ABORTED_RUNS: u64 = 3;
 
 // ------------------------------------------------------------------------------------------------ entries
 
@@ -494,6 +497,7 @@ struct Stats {
     build_err: u64,
     skipped_peers: u64,
     panics: u64,
+    aborted_runs: u64, // runs in which a healthy client was refused / not answered / cut off
     distinct: HashSet<u64>,
     nontrivial: HashSet<u64>,
 }
@@ -836,6 +840,9 @@ fn run_program(srt: &tokio::runtime::Runtime, crt: &tokio::runtime::Runtime, p: 
     if ex.finished.load(Ordering::SeqCst) {
         e.ev.push(json!({"ev": "exporter_exited"}));
     }
+    if e.aborted {
+        st.aborted_runs += 1;
+    }
     let ev = std::mem::take(&mut e.ev);
     drop(e);
     for v in &ev {
@@ -1090,6 +1097,9 @@ fn main() {
             for (idx, line) in text.lines().filter(|l| !l.trim().is_empty()).enumerate() {
                 let v: Value = serde_json::from_str(line).expect("program json");
                 for p in programs_from_line(&v, idx, all_paths, all_emb) {
+                    if st.aborted_runs >= MAX_ABORTED_RUNS {
+                        break;
+                    }
                     run += 1;
                     run_program(&srt, &crt, &p, run, &mut w, &mut st);
                 }
@@ -1101,6 +1111,9 @@ fn main() {
             let mut rng = vh::rng(vh::seed(1).wrapping_mul(0x9e37_79b9).wrapping_add(18));
             for idx in 0..runs {
                 let p = random_program(&mut rng, idx, plain);
+                if st.aborted_runs >= MAX_ABORTED_RUNS {
+                    break;
+                }
                 run += 1;
                 run_program(&srt, &crt, &p, run, &mut w, &mut st);
             }
@@ -1115,7 +1128,7 @@ fn main() {
         "{}",
         json!({"runs": st.runs, "events": st.events, "responses": st.resp, "n200": st.n200, "n403": st.n403, "n400": st.n400,
                "closed": st.closed, "timeouts": st.timeouts, "refused": st.refused, "build_err": st.build_err,
-               "skipped_peers": st.skipped_peers, "panics": st.panics, "distinct": st.distinct.len(),
+               "skipped_peers": st.skipped_peers, "panics": st.panics, "aborted_runs": st.aborted_runs, "distinct": st.distinct.len(),
                "distinct_nontrivial": st.nontrivial.len(), "wall_ms": t0.elapsed().as_millis() as u64})
     );
     // the runtimes own detached connection tasks of connections the programs left open: do not wait for them
